@@ -50,6 +50,10 @@ EntryCost(D, lt, id) == IF lt = 0 THEN D.lex[id + 1].c
                         ELSE IF lt = 1 THEN D.user[id + 1].c
                         ELSE D.unk[UnkByStoredId(D, id)].c
 
+EntryL(D, lt, id) == IF lt = 0 THEN D.lex[id + 1].l ELSE IF lt = 1 THEN D.user[id + 1].l ELSE D.unk[UnkByStoredId(D, id)].l
+EntryR(D, lt, id) == IF lt = 0 THEN D.lex[id + 1].r ELSE IF lt = 1 THEN D.user[id + 1].r ELSE D.unk[UnkByStoredId(D, id)].r
+EntryExists(D, lt, id) == IF lt = 0 THEN id + 1 <= Len(D.lex) ELSE IF lt = 1 THEN id + 1 <= Len(D.user) ELSE id + 1 <= Len(D.unk)
+
 (* every category that is primary for some character of s has an unknown entry *)
 UnkComplete(D, s, bt) == \A i \in 1..Len(s) : UnkOfCat(D, bt[i]) # {}
 =======================================================================
